@@ -957,6 +957,18 @@ def fault_cases_list(r):
              "others": {b"lb": b"value b", b"lc": b"value c"}}]
 
 
+def fault_cases_removals():
+    """C09 ('clearing leaves an empty cache', 'a full removal deletes entry and content'): `clear` and `remove_fully`, sync and
+    async, under every injected errno: an ok answer means the thing is gone."""
+    d = b"removed under a fault " * 6
+    key = b"rk"
+    base = [w_oneshot("s", "sha256", b"other", b"other value"), w_oneshot("a", "sha512", key, d)]
+    cases = [{"setup": base, "victim": f"clear {fl} c0", "key": None, "data": None, "algo": "sha512", "kind": "clear", "others": {}} for fl in "sa"]
+    cases += [{"setup": base, "victim": f"remove_fully {fl} c0 {hx(key)}", "key": None, "data": None, "algo": "sha512", "kind": "remove_fully",
+               "rf_key": key, "rf_data": d, "retry_ok": False, "others": {b"other": b"other value"}} for fl in "sa"]
+    return cases
+
+
 def fault_cases_inserts():
     """C06 ('no lookup ever returns an entry that was not written by a SUCCESSFUL insert'): keyed one-shot writes and a
     rewrite of an existing key; whatever call fails, a write that answers an error has not mapped the key to the new data."""
